@@ -237,6 +237,23 @@ def run_setup_restart(case, R):
     _c03("run_e2e")(case, R)
 
 
+def run_setup_fault(case, R):
+    """'the controller accepts the accessory's proof if and only if it is the correct one', at the place where the proof is consumed: the M2/M4
+    families of C03 (missing, flipped, truncated, foreign proof; honest replies through every transport, fragmented on BLE)."""
+    _c03("run_e2e" if "transport" in case else "run_case")(case, R)
+
+
+def enum_setup_faults(tier):
+    for c in _c03("enum_families")(tier):
+        if c["fault"][0] in ("none", "wrong-code") or c["fault"][0].startswith(("m2-", "m4-")):
+            yield c
+    for c in _c03("enum_e2e")(tier):
+        if c["fault"][0] == "none":
+            yield c
+            if c["transport"] == "ble":
+                yield dict(c, pieces=60, att=100)
+
+
 SPEC = Property(
     P, "exploration",
     rule=("setup code (all ddd-dd-ddd shapes) x 16-byte salt (random, 1..16 leading zero bytes) x client/server secrets (128-bit and "
@@ -251,6 +268,8 @@ SPEC = Property(
               space="9 targets x 1 (quick) / 40 (thorough) freshly mined exchanges, seeds derived from VERIF_SEED", min_nontrivial=5),
         Layer("mined-corpus-pair-setup", run_setup_corpus, enumerate=lambda tier: _c03("enum_corpus")(tier), exhaustive=False,
               space="the mined leading-zero exchanges as complete pair-setup exchanges against the reference accessory (it must accept M3 and decrypt/verify M5), decode styles ip and ble"),
+        Layer("proof-in-pair-setup", run_setup_fault, enumerate=enum_setup_faults, exhaustive=False,
+              space="C03's M2/M4 fault families (proof missing, flipped, truncated, of another exchange, wrong code) at generator level, and honest pair-setups through the three transports (BLE also with fragmented replies)"),
         Layer("restarted-exchanges", run_setup_restart, enumerate=lambda tier: _c03("enum_retry")(tier), exhaustive=False,
               space="BLE pairing restarted after a link drop or a mistyped code: the proof of every restarted exchange must be the one for the accessory's new salt and B"),
         Layer("generated", run_case, strategy=cases, n={"quick": 192}, tiers=("quick",), min_nontrivial=40),
